@@ -512,12 +512,14 @@ package yang
 // the node is written in; it may load an imported module from disk, which is
 // assumed to leave the processed trees as they are.
 //@ spec ownPrefix(m *Module) string = m.BelongsTo != nil ? (m.BelongsTo.Prefix == nil ? "" : m.BelongsTo.Prefix.Name) : (m.Prefix == nil ? "" : m.Prefix.Name)
-//@ func FindModuleByPrefix props C17 C09
+//@ abstract importOf(root *Module, prefix string) *Module
+//@ func FindModuleByPrefix props C17 C09 C11
 //@   requires n != nil ==> rootOf(n) != nil && rootOf(n).Modules != nil
 //@   requires n != nil ==> (forall i int :: 0 <= i && i < len(rootOf(n).Import) ==> rootOf(n).Import[i] != nil && rootOf(n).Import[i].Prefix != nil)
 //@   ensures  n == nil ==> result == nil
 //@   ensures  n != nil && (prefix == "" || prefix == old(ownPrefix(rootOf(n)))) ==> result == rootOf(n)
 //@   ensures  n != nil && prefix != "" && prefix != old(ownPrefix(rootOf(n))) && (forall i int :: 0 <= i && i < len(old(rootOf(n).Import)) ==> old(rootOf(n).Import[i].Prefix.Name) != prefix) ==> result == nil
+//@   ensures[assume:an-import-prefix-denotes-one-module-per-declaring-module] n != nil && prefix != "" && prefix != old(ownPrefix(rootOf(n))) ==> result == importOf(old(rootOf(n)), prefix)
 //@   ensures[assume:loading-keeps-the-processed-trees] (forall m *Module :: modOK(m)) && (forall x *Entry :: ranked(x) && rootOK(x))
 //@            && (forall x *Entry :: allocated(x) ==> x.Parent == old(x.Parent) && x.Node == old(x.Node))
 //@   safe
@@ -761,6 +763,47 @@ package yang
 //@ pred idIn(x *Identity, s []*Identity, k int) = exists i int :: 0 <= i && i < k && s[i] == x
 //@ pred idNoDup(s []*Identity, k int) = forall i int, j int :: 0 <= i && i < j && j < k ==> s[i] != s[j]
 //@ pred idValuesOK(x *Identity) = x == nil || (forall i int :: 0 <= i && i < len(x.Values) ==> x.Values[i] != nil)
+//
+// The identity dictionary is keyed by "<name of the module the identity
+// belongs to>:<identity name>" -- the module name, never a prefix (prefixes are
+// local to the importing module and need not be unique).
+//@ spec idKeyOf(i *Identity) string = fmt2("%s:%s", nsOwner(rootOf(iface(i))).Name, i.Name)
+//@ func (*Identity).modulePrefixedName props C11 C05
+//@   requires s != nil && rootOf(iface(s)) != nil && nsOwner(rootOf(iface(s))) != nil && (forall m *Module :: modOK(m))
+//@   ensures  result == idKeyOf(s)
+//@   modifies nothing
+//@   safe
+//@ func newResolvedIdentity props C11
+//@   requires i != nil && rootOf(iface(i)) != nil && nsOwner(rootOf(iface(i))) != nil && (forall m *Module :: modOK(m))
+//@   ensures  result == idKeyOf(i) && fresh(result1) && result1.Module == m && result1.Identity == i
+//@   modifies nothing
+//@   safe
+//
+// findIdentityBase: a base without prefix or with the declaring module's own
+// prefix is looked up under the name of the module the declaring (sub)module
+// belongs to; any other prefix goes through the imports of the DECLARING
+// (sub)module, and the identity is looked up under that module's name.
+//@ spec baseKey(mod *Module, b string, own string) string = (pfxOf(b) == "" || pfxOf(b) == own)
+//@     ? fmt2("%s:%s", nsOwner(mod).Name, baseOf(b))
+//@     : fmt2("%s:%s", nsOwner(importOf(mod, pfxOf(b))).Name, baseOf(b))
+//@ func (*Module).findIdentityBase props C11
+//@   requires mod != nil && mod.Modules != nil && mod.Modules.typeDict != nil && (forall m *Module :: modOK(m)) && nodeParent(iface(mod)) == nil
+//@   requires forall i int :: 0 <= i && i < len(mod.Import) ==> mod.Import[i] != nil && mod.Import[i].Prefix != nil
+//@   ensures  len(result1) == 0 ==> has(old(mod.Modules.typeDict).identities.dict, baseKey(mod, baseStr, old(ownPrefix(mod))))
+//@   ensures  len(result1) == 0 ==> result.Module == old(mod.Modules.typeDict).identities.dict[baseKey(mod, baseStr, old(ownPrefix(mod)))].Module && result.Identity == old(mod.Modules.typeDict).identities.dict[baseKey(mod, baseStr, old(ownPrefix(mod)))].Identity
+//@   ensures  fresh(result)
+//@   safe
+//
+// The order of a Values list: by identity name, and identities of equal name
+// (two modules) by the dictionary key -- module name first -- which differs
+// for any two identities of one set, so the order never depends on the
+// iteration order of the dictionary.
+//@ func (*Modules).resolveIdentities$1 props C11 C05
+//@   requires 0 <= j && j < len(newValues) && 0 <= k && k < len(newValues) && (forall m *Module :: modOK(m))
+//@   requires forall i int :: 0 <= i && i < len(newValues) ==> newValues[i] != nil && rootOf(iface(newValues[i])) != nil && nsOwner(rootOf(iface(newValues[i]))) != nil
+//@   ensures  result == (newValues[j].Name != newValues[k].Name ? strlt(newValues[j].Name, newValues[k].Name) : strlt(idKeyOf(newValues[j]), idKeyOf(newValues[k])))
+//@   modifies nothing
+//@   safe
 //
 // appendIfNotIn: the list keeps its elements in place, contains chk afterwards
 // and gains no duplicate.
